@@ -14,6 +14,26 @@ def _uid(pas):
         k += n
 
 
+def _gids(app, pas):
+    """With --valid-gids every array gets real global ids (as a parallel
+    run or a restart would have) instead of the serial placeholder."""
+    if getattr(app.options, 'valid_gids', False):
+        for pa in pas:
+            n = pa.get_number_of_particles()
+            # not in index order: gid order and local order differ at once
+            g = (np.arange(n, dtype=np.uint32) * 7919) % max(n, 1)
+            if len(set(g.tolist())) != n:
+                g = np.arange(n, dtype=np.uint32)[::-1].copy()
+            pa.gid[:] = g
+
+
+class _GidOption(object):
+    def add_user_options(self, group):
+        group.add_argument('--valid-gids', action='store_true',
+                           dest='valid_gids', default=False,
+                           help='give every particle a valid gid')
+
+
 def make_app(problem):
     from pysph.solver.application import Application
     from pysph.base.utils import get_particle_array
@@ -22,7 +42,7 @@ def make_app(problem):
     from pysph.sph.integrator import EPECIntegrator, PECIntegrator
     from pysph.base.nnps import DomainManager
 
-    class Drop(Application):
+    class Drop(_GidOption, Application):
         """Elliptical drop: one array, free surface."""
 
         def create_scheme(self):
@@ -54,9 +74,10 @@ def make_app(problem):
                 u=-100 * x, v=100 * y)
             self.scheme.setup_properties([pa])
             _uid([pa])
+            _gids(self, [pa])
             return [pa]
 
-    class Tank(Application):
+    class Tank(_GidOption, Application):
         """Two fluid blocks in a box: three arrays, walls, free surface."""
 
         def create_scheme(self):
@@ -98,9 +119,10 @@ def make_app(problem):
                     rho=np.full_like(x, rho)))
             self.scheme.setup_properties(pas)
             _uid(pas)
+            _gids(self, pas)
             return pas
 
-    class Periodic(Application):
+    class Periodic(_GidOption, Application):
         """Decaying vortex in a doubly periodic box: one array, ghosts."""
 
         def create_domain(self):
@@ -135,6 +157,7 @@ def make_app(problem):
                 u=u, v=v)
             self.scheme.setup_properties([pa])
             _uid([pa])
+            _gids(self, [pa])
             return [pa]
 
     return dict(drop=Drop, tank=Tank, periodic=Periodic)[problem]
